@@ -119,7 +119,8 @@ macro_rules! ctors_for {
                     if !sg.is_finite() || !mu.is_finite() { Doc::Unspec } else { Doc::Ok } } }) });
         $v.push(Ctor { name: n("NormalInverseGaussian::new"), arity: 2, is32: $is32, call: Box::new(move |a| e(dbg_err!(NormalInverseGaussian::<F>::new(a[0] as F, a[1] as F)))),
             doc: Box::new(|a| { let mut v = vec![]; if notpos(a[0]) { v.push("AlphaNegativeOrNull") } if !(a[1].abs() < a[0]) { v.push("AbsoluteBetaNotLessThanAlpha") } if a[0].is_infinite() && a[0] > 0.0 { v.push("AlphaInfinite") }
-                if !v.is_empty() { Doc::Err(v) } else if a[0] > 1e18 { Doc::Unspec } else { Doc::Ok } }) });
+                // "too close to the maximum finite value" is only documented for targets without subnormals: judged as unspecified above MAX/2
+                if !v.is_empty() { Doc::Err(v) } else if (a[0] as F) > F::MAX / 2.0 { Doc::Unspec } else { Doc::Ok } }) });
         $v.push(Ctor { name: n("Pareto::new"), arity: 2, is32: $is32, call: Box::new(move |a| e(dbg_err!(Pareto::<F>::new(a[0] as F, a[1] as F)))),
             doc: Box::new(|a| { let mut v = vec![]; if notpos(a[0]) { v.push("ScaleTooSmall") } if notpos(a[1]) { v.push("ShapeTooSmall") } if v.is_empty() { Doc::Ok } else { Doc::Err(v) } }) });
         $v.push(Ctor { name: n("Weibull::new"), arity: 2, is32: $is32, call: Box::new(move |a| e(dbg_err!(Weibull::<F>::new(a[0] as F, a[1] as F)))),
